@@ -262,9 +262,13 @@ class EsTreeGen:
             ops = ["AndOperation", "OrOperation", "UnknownOperation"] + (["BoolOperation"] if self.bool_ops else [])
             cls = r.choice(ops)
             n = r.choice([2, 2, 3, 4])
+            wide = r.random() < 0.004
+            if wide:
+                # beyond any "reasonable" limit a change may introduce (a clause count, a chunk size): seeded C05-G
+                n = r.choice([130, 1030])
             ch = []
             for _ in range(n):
-                c = self.tree(d - 1, base)
+                c = self.leaf() if wide and r.random() < 0.97 else self.tree(min(d - 1, 1) if wide else d - 1, base)
                 if not self.mixes and c["c"].endswith("Operation") and c["c"] != cls:
                     c = self.nm(gen.mk("Group", [c]))
                 elif c["c"].endswith("Operation") and c["c"] != cls and r.random() < 0.6:
